@@ -4,6 +4,7 @@ CONSTRAINT Progress
 POSTCONDITION Report
 INVARIANT TypeOK
 INVARIANT BOLOnceFirst
+INVARIANT StartSampledAfterBOL
 INVARIANT ScheduleIsNestedLoop
 INVARIANT EOLOnceLast
 INVARIANT HaltStopsLoopAndRunsEOL
